@@ -144,6 +144,68 @@ theorem c12_adapter_drop_holds_nothing (c0 : Cfg) (t : Term) (h : AllStart c0) (
         omega
     · exact Or.inr (errp _ hE)
 
+/-- **C12 (`capture` never waits for a command while holding one of its pipes -- whether the exchange
+    succeeded or failed).**  The Communicator -- with the read ends of the output pipes and, when the
+    exchange failed before the input was through, the stdin write end -- is released right after the
+    exchange, so every wait of `capture` (the explicit one for the last command and those of the
+    `Popen`s' drops, on the error path only the latter) happens with nothing held: a command that went on
+    writing after it had closed its stdin gets SIGPIPE instead of blocking on a pipe its own waiter keeps
+    open (defect F13 of the original code: `capture()` never returned for such a command). -/
+theorem c12_capture_holds_nothing_at_waits (c0 : Cfg) (h : AllStart c0) (hn : 0 < c0.n) :
+    WaitsUnder (fun h => ∀ e, h e = none) Held.empty (run c0 .capture) := by
+  unfold run
+  have hA := effective_allStart c0 .capture h
+  have hn' : 0 < (effective c0 .capture).n := by rw [effective_n]; exact hn
+  generalize effective c0 .capture = c at hA hn'
+  rw [runEff_ok c .capture hA]
+  have h0p : ∀ e : End, 1 ≤ e.pipe → capHeld (capPipe c .capture) e = none := by
+    intro e he; simp [capHeld]; omega
+  have h0e : hasErrPipe c = true → ∀ e, capHeld (capPipe c .capture) e = none := by
+    intro h e; simp [capHeld, capPipe_errPipe c .capture h]
+  rw [waitsUnder_append, waitsUnder_append, waitsUnder_append]
+  refine ⟨⟨⟨?_, ?_⟩, ?_⟩, ?_⟩
+  · exact waitsUnder_optAct _ _ _ _ (by simp)
+  · exact waitsUnder_noWait _ _ _ (noWait_flatMap _ _ (noWait_stageOk c _))
+  · exact waitsUnder_optAct _ _ _ _ (by simp)
+  simp only [heldAfter_append, capHeld_pre, stages_held c (att2 c .capture) _ c.n (Nat.le_refl _) h0p h0e, relW_heldStages]
+  generalize hH : heldStages c (capHeldR (capPipe c .capture)) c.n = H
+  have hcases := fun e (he : H e ≠ none) =>
+    heldStagesR_cases c (capPipe c .capture) e hn' (fun h => capPipe_errPipe c .capture h) (by rw [hH]; exact he)
+  -- once the Communicator is gone nothing is held
+  have hempty : heldAfter H ([Act.io] ++ (commEnds c .capture).map Act.close) = fun _ => none := by
+    rw [heldAfter_append, heldAfter_closes]
+    funext e
+    simp only [heldAfter_cons, heldAfter_nil, stepHeld]
+    cases hHe : H e with
+    | none => simp
+    | some b =>
+      rcases hcases e (by simp [hHe]) with ⟨rfl, hi⟩ | ⟨rfl, ho⟩ | ⟨rfl, hE⟩
+      · simp [commEnds, commWriteEnds, hi]
+      · simp [commEnds, commReadEnds, ho]
+      · have : (capPipe c .capture || hasErrPipe c) = true := by rcases hE with hE | hE <;> simp [hE]
+        simp [commEnds, commReadEnds, this]
+  have hdrop : ∀ w, WaitsUnder (fun h => ∀ e, h e = none) (fun _ => none) (dropVec c (commEnds c .capture) w c.n) := by
+    intro w
+    apply dropVec_waits
+    intro j _ _ e
+    simp
+  by_cases hio : c.ioFails = true
+  · simp only [tail, hio, if_true]
+    rw [waitsUnder_append, waitsUnder_append, hempty]
+    refine ⟨⟨waitsUnder_noWait _ _ _ ?_, hdrop _⟩, by simp [WaitsUnder]⟩
+    intro a ha
+    simp only [List.mem_append, List.mem_singleton, List.mem_map] at ha
+    rcases ha with rfl | ⟨e, _, rfl⟩ <;> simp
+  · simp only [tail, hio, Bool.false_eq_true, if_false]
+    rw [waitsUnder_append, waitsUnder_append, waitsUnder_append, hempty]
+    refine ⟨⟨⟨waitsUnder_noWait _ _ _ ?_, by simp [WaitsUnder]⟩, ?_⟩, by simp [WaitsUnder]⟩
+    · intro a ha
+      simp only [List.mem_append, List.mem_singleton, List.mem_map] at ha
+      rcases ha with rfl | ⟨e, _, rfl⟩ <;> simp
+    · rw [heldAfter_append, hempty]
+      simp only [heldAfter_cons, heldAfter_nil, stepHeld]
+      exact hdrop _
+
 /-- the same for a plain `Popen` of a single command: `Popen::drop` releases its pipe ends before it waits -/
 theorem c12_popen_drop_holds_nothing (c0 : Cfg) (h : AllStart c0) (hn : c0.n = 1) :
     WaitsUnder (fun h => ∀ e, h e = none) Held.empty (run c0 .popen) := by
